@@ -67,8 +67,19 @@ def importer_equiv(op):
     return ['import', g, nodes, edges]
 
 
+def none_value(op):
+    """update_node_property / update_nodes_property / update_link_property with prop_val=None: refused by `assert prop_val
+    is not None` before anything is looked at"""
+    return (op[0] == 'upd_node' and op[4] is None) or (op[0] == 'upd_nodes' and op[3] is None) or \
+           (op[0] == 'upd_link' and op[6] is None)
+
+
 def norm_op(op):
-    return importer_equiv(op) if op[0] == 'imp' else op
+    if op[0] == 'imp':
+        return importer_equiv(op)
+    if none_value(op):
+        return ['refused', op[1]]
+    return op
 
 
 def target(op):
@@ -289,9 +300,14 @@ class Backend:
 
 def counters(b):
     """the id allocator(s) of the store: start_id, resp. sorted [[gid, next id]]"""
+    st = b.storage.storage_instance
     if b.kind == 'shared':
-        return int(b.storage.start_id)
-    return sorted([SYM[g], int(v)] for g, v in b.storage.storage_instance.graph_node_ids.items())
+        if hasattr(st, 'start_id'):
+            return int(st.start_id)
+        return max([int(n) for n in st.graphs.nodes] + [0]) + 1          # allocator not observable: next free id
+    if hasattr(st, 'graph_node_ids'):
+        return sorted([SYM[g], int(v)] for g, v in st.graph_node_ids.items())
+    return sorted([SYM[g], max([int(n) for n in G.nodes] + [0]) + 1] for g, G in st.graphs.items())
 
 
 def probe(b, gids):
@@ -430,8 +446,8 @@ def s(x):
 def q_op(op):
     k = op[0]
     od = lambda d: copt(d, q_dict)
-    if k == 'imp':
-        return q_op(importer_equiv(op))
+    if k == 'imp' or none_value(op):
+        return q_op(norm_op(op))
     if k == 'refused':
         return '(OGraphExists %s)' % s(op[1])      # changes nothing, whatever the store holds
     if k == 'import':
@@ -679,7 +695,7 @@ DEFAULT_WEIGHTS = {
 }
 
 
-def gen_op(rng, sh, kinds, weights, gids, nids, identity_rate=0.04, malformed=0.1, prefer_fresh=0.0):
+def gen_op(rng, sh, kinds, weights, gids, nids, identity_rate=0.04, malformed=0.1, prefer_fresh=0.0, none_rate=0.1):
     k = rng.choices(kinds, weights)[0]
     live = sorted(g for g, s in sh.nodes.items() if s)
     g = rng.choice(live) if live and rng.random() < 0.8 else rng.choice(gids)
@@ -710,7 +726,8 @@ def gen_op(rng, sh, kinds, weights, gids, nids, identity_rate=0.04, malformed=0.
         d = {}
         for _ in range(rng.randrange(3)):
             p = pname()
-            d[p] = pvalue(p)
+            # a None value in a dictionary-valued setter is STORED as None (it never clears a property)
+            d[p] = None if rng.random() < none_rate else pvalue(p)
         return d
 
     if k in ('import', 'import_direct'):
@@ -745,12 +762,12 @@ def gen_op(rng, sh, kinds, weights, gids, nids, identity_rate=0.04, malformed=0.
         return [k, g, a, rng.choice(RELS), b, props]
     if k == 'upd_node':
         p = pname()
-        return [k, g, node(), p, pvalue(p)]
+        return [k, g, node(), p, None if rng.random() < none_rate / 2 else pvalue(p)]
     if k == 'unset_node':
         return [k, g, node(), pname(True)]
     if k == 'upd_nodes':
         p = pname()
-        return [k, g, p, pvalue(p)]
+        return [k, g, p, None if rng.random() < none_rate / 2 else pvalue(p)]
     if k == 'upd_node_props':
         return [k, g, node(), pdict()]
     if k in ('upd_link', 'unset_link', 'upd_link_props'):
@@ -759,7 +776,7 @@ def gen_op(rng, sh, kinds, weights, gids, nids, identity_rate=0.04, malformed=0.
         if p in ('GraphID', 'NodeID'):
             p = rng.choice(PROPS)
         if k == 'upd_link':
-            return [k, g, a, b, r, p, pvalue(p)]
+            return [k, g, a, b, r, p, None if rng.random() < none_rate / 2 else pvalue(p)]
         if k == 'unset_link':
             return [k, g, a, b, r, p]
         return [k, g, a, b, r, pdict()]
@@ -1045,6 +1062,43 @@ def late_add_scenario(rng, extra=5):
     ops += [['list_ids', ga], ['by_class', ga, CLASSES[0]], ['upd_nodes', ga, rng.choice(PROPS), rng.choice(VALS)]]
     ops += [['get_node', ga, n] for n in na if rng.random() < 0.8]
     ops += [['matching', ga, gb], ['del_graph', gb], ['list_ids', ga], ['upd_nodes', ga, rng.choice(PROPS), rng.choice(VALS)]]
+    kinds = [k for k in DEFAULT_WEIGHTS if k != 'merge']
+    ws = [DEFAULT_WEIGHTS[k] for k in kinds]
+    sh = Shadow()
+    for op in ops:
+        sh.apply(op)
+    for _ in range(extra):
+        op = gen_op(rng, sh, kinds, ws, GIDS[:3], NIDS[:5], identity_rate=0.0, malformed=0.0)
+        sh.apply(op)
+        ops.append(op)
+    return ops
+
+
+def delete_then_add_scenario(rng, extra=4):
+    """a graph with links (built node by node, imported or cloned) loses a node that is NOT its newest one, then gets
+    a new node: every surviving node keeps its properties and its links, the new node has none"""
+    g, g2 = rng.sample(GIDS[:3], 2)
+    ns = rng.sample(NIDS[:5], 4)
+    ops = []
+    how = rng.choice(['add', 'import', 'clone'])
+    props = lambda: gen_props(rng, [('Name', VALS)] if rng.random() < 0.5 else (), pmax=1)
+    if how == 'import':
+        nodes = [[i + 1, dict(props(), NodeID=n, Class=rng.choice(CLASSES[:2]))] for i, n in enumerate(ns[:3])]
+        ops.append(['import', g, nodes, [[1, 2, {'Class': RELS[0]}], [2, 3, {'Class': RELS[1], 'p0': 'v1'}], [1, 3, {'Class': RELS[0]}]]])
+    else:
+        src = g2 if how == 'clone' else g
+        for n in ns[:3]:
+            ops.append(['add_node', src, n, rng.choice(CLASSES[:2]), props() or None])
+        ops += [['add_link', src, ns[0], RELS[0], ns[1], None], ['add_link', src, ns[1], RELS[1], ns[2], {'p0': 'v1'}],
+                ['add_link', src, ns[0], RELS[0], ns[2], None]]
+        if how == 'clone':
+            ops.append(['clone', g2, g])
+    ops.append(['del_node', g, rng.choice(ns[:2])])            # not the newest node
+    ops.append(['add_node', g, ns[3], rng.choice(CLASSES[:2]), props() or None])
+    ops += [['list_ids', g]] + [['get_node', g, n] for n in ns] + [['get_link', g, ns[1], ns[2]], ['get_link', g, ns[0], ns[2]],
+                                                                  ['get_link', g, ns[3], ns[2]]]
+    if rng.random() < 0.5:
+        ops += [['del_node', g, ns[2]], ['add_node', g, ns[0] if ns[0] not in () else ns[1], CLASSES[0], None], ['list_ids', g]]
     kinds = [k for k in DEFAULT_WEIGHTS if k != 'merge']
     ws = [DEFAULT_WEIGHTS[k] for k in kinds]
     sh = Shadow()
